@@ -72,6 +72,38 @@ func domainPrefixOf(v ssa.Value, sub Subst, depth int) (ssa.Value, bool) {
 	}
 	switch x := v.(type) {
 	case *ssa.UnOp:
+		// var t [4]byte; copy(t[:], req.Domain[0:4]); ... t ...: a local array written by exactly one copy of the prefix
+		if al, ok := x.X.(*ssa.Alloc); ok {
+			if at, ok := derefT(al.Type()).Underlying().(*types.Array); ok && at.Len() == 4 {
+				var src ssa.Value
+				nw := 0
+				for _, r := range *al.Referrers() {
+					switch y := r.(type) {
+					case *ssa.Slice:
+						for _, r2 := range *y.Referrers() {
+							if call, ok := r2.(*ssa.Call); ok && isBuiltin(call, "copy") && call.Call.Args[0] == ssa.Value(y) {
+								nw++
+								src = call.Call.Args[1]
+							} else {
+								nw += 2 // the slice of the array is used otherwise: not understood
+							}
+						}
+					case *ssa.Store:
+						nw += 2
+					case *ssa.IndexAddr:
+						nw += 2
+					}
+				}
+				if nw == 1 && src != nil {
+					if sl, ok := sub.Res(src).(*ssa.Slice); ok && sl.High != nil && an.IsConstInt(sl.High, 4) && (sl.Low == nil || an.IsConstInt(sl.Low, 0)) {
+						owner, fld, base := an.FieldOf(sub.Res(sl.X))
+						if owner != nil && fld == "Domain" {
+							return base, true
+						}
+					}
+				}
+			}
+		}
 		if sp, ok := x.X.(*ssa.SliceToArrayPointer); ok {
 			if at, ok := sp.Type().(*types.Pointer).Elem().Underlying().(*types.Array); ok && at.Len() == 4 {
 				owner, fld, base := an.FieldOf(sub.Res(sp.X))
